@@ -4,3 +4,6 @@ for i in range(1, 21):
 add("C03", "Bounded, solver-decided: for all ordered pairs of the 12 homogeneous-family classes in 2-D (quick) and 3-D (thorough), with ALL parameter values symbolic (arbitrary valid members), the composition law, closure, class honesty, invertibility, in-place agreement/rejection and operand immutability are proved as z3 unsat results over the real compose code; chains/WithDims members and Affine.decompose (2x2 SVD contract) included. One-step-from-arbitrary-valid-state, so finite compose sequences follow by induction.",
     "Reals for floats; n_dims<=3; class-honesty oracles and rotation parametrisations trusted; SVD contract stub (complete O(2) parametrisation) trusted; TPS/PWA operands not covered.")
 for k in CHECKS: NA.pop(k, None)
+add("C04", "Bounded, solver-decided: every homogeneous-family class (arbitrary valid member, symbolic parameters, 2-D; 3-D in thorough) is inverted from both sides by its pseudoinverse on symbolic points, with honest inverse class and swapped alignment ends; PiecewiseAffine round trips with symbolic vertices/query points over 1-2 triangles; the ThinPlateSplines pseudoinverse built from an arbitrary valid forward state (symbolic forward source) is shown to be the reverse-fitted spline (kernel on its own source, floor carried, landmarks sent back within 1e-7 relative).",
+    "Reals for floats; n_dims<=3; PWA: at most two symbolic vertices at a time over stated base triangulations; TPS: concrete landmark sets from a stated list, SVD in real LAPACK with explicit tolerance.")
+for k in CHECKS: NA.pop(k, None)
